@@ -77,6 +77,11 @@ func Apply(doc, query, update bsonkit.Doc, upsert bool, arrayFilters bsonkit.Lis
 		return nil, fmt.Errorf("empty update document")
 	}
 
+	// reject conflicting paths up front
+	if path, ok := conflictingPath(*update); ok {
+		return nil, fmt.Errorf("conflicting key %q", path)
+	}
+
 	// prepare changes
 	changes := &Changes{
 		Upsert:   upsert,
@@ -101,6 +106,63 @@ func Apply(doc, query, update bsonkit.Doc, upsert bool, arrayFilters bsonkit.Lis
 	changes.pathTree = nil
 
 	return changes, nil
+}
+
+// conflictingPath checks the paths named by an update document before
+// anything is applied: two operator invocations conflict if their paths are
+// equal or one is a prefix of the other, as in MongoDB. A positional operator
+// segment and a fixed segment at the same position (below a common prefix)
+// always conflict, whatever follows: one update cannot address an array both
+// through "a.$[]" / "a.$[id]" and through "a.0" or "a.b" (MongoDB: "would
+// create a conflict at 'a'"). Two different positional segments at the same
+// position do not conflict statically (different array filters may select
+// different elements, overlaps among them are detected when the changes are
+// recorded). Without this check a conflict was only detected
+// if both invocations changed the document, so the acceptance of an update
+// depended on the document and a repeated application could change it again.
+func conflictingPath(update bson.D) (string, bool) {
+	// collect paths
+	var paths [][]string
+	var names []string
+	for _, op := range update {
+		fields, ok := op.Value.(bson.D)
+		if !ok || !strings.HasPrefix(op.Key, "$") {
+			continue
+		}
+		for _, field := range fields {
+			paths = append(paths, strings.Split(field.Key, "."))
+			names = append(names, field.Key)
+			if target, ok := field.Value.(string); ok && op.Key == "$rename" {
+				paths = append(paths, strings.Split(target, "."))
+				names = append(names, target)
+			}
+		}
+	}
+
+	// compare pairwise
+	for i := range paths {
+		for j := i + 1; j < len(paths); j++ {
+			conflict := true
+			for k := 0; k < len(paths[i]) && k < len(paths[j]); k++ {
+				a, b := paths[i][k], paths[j][k]
+				if a == b {
+					continue
+				}
+				pa, pb := strings.HasPrefix(a, "$"), strings.HasPrefix(b, "$")
+				if pa != pb {
+					// positional against fixed: conflict
+					break
+				}
+				conflict = false
+				break
+			}
+			if conflict {
+				return names[j], true
+			}
+		}
+	}
+
+	return "", false
 }
 
 func applySet(ctx Context, doc bsonkit.Doc, _, path string, v interface{}) error {
